@@ -106,6 +106,11 @@ func (w shortW) Write(p []byte) (int, error) {
 }
 
 // c09verbProbe is the single call site of the verb probes (the caller field is an input of the call).
+// c09valuer resolves itself when it is logged (log/slog.LogValuer); what it resolves to is what *cur holds at that time.
+type c09valuer struct{ cur *int }
+
+func (v c09valuer) LogValue() stdslog.Value { return stdslog.IntValue(*v.cur) }
+
 func c09verbProbe(lg *slog.Entry, lvl slog.Level, msg string, args []any) {
 	lg.LogAttrs(c09verbCtx, lvl, msg, args...)
 }
@@ -224,6 +229,23 @@ func c09hist(c *Ctx) {
 			p.as = append(p.as, slog.NewAttr("zzspy", ptrSpy{&lastCtx}))
 			c.R.Add("probes_reusing_one_attribute_slice", 1)
 		}
+		// one of the probe's attributes may be an object the APPLICATION owns and passes to other loggers too, holding a
+		// value that resolves itself when it is logged (log/slog's LogValuer: a configuration version, a gauge) - what it
+		// resolved to for an EARLIER record is no part of this call
+		var cfg *int
+		var cfgAttr slog.Attr
+		if p.as != nil && r.P(35) {
+			cfg = new(int)
+			cfgAttr = slog.NewAttr("zzcfg", c09valuer{cfg})
+			p.as = append(p.as, cfgAttr)
+			c.R.Add("probes_with_an_application_owned_attribute_that_resolves_itself", 1)
+		}
+		setCfg := func(v int) {
+			if cfg != nil {
+				*cfg = v
+			}
+		}
+		setCfg(2)
 		// reference: the probe formatted by a fresh context (pool flushed)
 		runtime.GC()
 		runtime.GC()
@@ -242,6 +264,21 @@ func c09hist(c *Ctx) {
 			hr := gen.NewR(c.Seed, "C09h", fmt.Sprint(idx), h)
 			n := hr.Range(1, 20)
 			lastClass, hdesc = "", nil
+			if cfg != nil {
+				// (a FRESH attribute object of the application - the same key, the same self-resolving value - goes into a
+				// record of ANOTHER logger while the value resolves to something else, and into the probe afterwards)
+				cfgAttr = slog.NewAttr("zzcfg", c09valuer{cfg})
+				for i, a := range p.as { // (the slice may have been put in key order by now)
+					if a != nil && a.Key() == "zzcfg" {
+						p.as[i] = cfgAttr
+					}
+				}
+				setCfg(1)
+				hl := newRoot("cfg-history", Format(hr.Intn(3)), w, slog.AlwaysLevel)
+				capture(log, func() {
+					hl.WriteThru(bg, slog.InfoLevel, p.ts, thePC, "a record of another logger that carries the same attribute object", slog.Attrs{cfgAttr})
+				})
+			}
 			for i := 0; i < n; i++ {
 				q := genProbe(hr)
 				if hr.P(40) {
@@ -351,6 +388,7 @@ func c09hist(c *Ctx) {
 				c.R.Add("probes_right_after_a_partly_written_record", 1)
 			}
 			slog.SetFlags(flagsNow)
+			setCfg(2)
 			return n
 		}
 		// the probe issued from INSIDE the warning destination of another logger whose own destination has just failed
